@@ -90,6 +90,16 @@ def oracle(cfg, n, outcomes, res):
     api = [r for r in reqs if r[0] == "api"]
     expired_hdr = "Bearer at0" if cfg["init_expired"] else None
     consumed = [(outcomes[k] if k < len(outcomes) else "ok") for k in range(len(tok_reqs))]
+    if "junk" in outcomes:
+        # the token endpoint answered with JSON that is neither a token nor an OAuth error (not modelled): whatever the client makes of
+        # it, no protected request goes out with the expired token, and every task ends
+        for r in api:
+            if r[2] == expired_hdr:
+                bad.append(("api-with-expired-token", "a protected request carried the expired access token after the token endpoint answered with neither a token nor an error"))
+        for tid in range(n):
+            if res["results"].get(tid) is None:
+                bad.append(("task-lost", "a task neither finished nor failed"))
+        return bad
     succ = sum(1 for o in consumed if o in ("ok", "rot"))
     fails = len(consumed) - succ
     for r in api:
@@ -150,7 +160,8 @@ def check_run(ctx, cfg, n, outcomes, kinds, yields, choices, res, seen):
         mod["final"] = None
     ctx.case(case, sig[3] + str(sig[4]), "n%d:%s" % (n, ",".join(outcomes) or "-"))
     ctx.count("kinds:" + "".join(sorted(k[0] for k in kinds)))
-    ctx.compare("asyncrefresh", case, impl, mod)
+    if "junk" not in outcomes:
+        ctx.compare("asyncrefresh", case, impl, mod)
     for x in evs:
         ctx.count("ev:" + x[0] + (":" + str(x[1]) if x[0] in ("error", "refresh_resp") else ""))
 
@@ -184,6 +195,8 @@ def scenarios():
             if cfg["cc"] and not cfg["has_rt"] and "rot" in oc:
                 continue
             out.append((cfg, oc))
+    for cfg in (mkcfg(), mkcfg(cc=True, has_rt=False)):
+        out.append((cfg, ["junk"]))
     out.append((mkcfg(init_expired=False, valid_for=120), []))
     out.append((mkcfg(init_expired=False), []))
     out.append((mkcfg(has_token=False), []))
